@@ -174,6 +174,15 @@ func checkC11(w *World, r *Report) {
 				}
 				nTC++
 				bv, isC := constBool(st.Val)
+				if !isC && fn == w.makeBarStateFn() {
+					// initialisation of a state that is not yet published: not a reset
+					if fa, ok := st.Addr.(*ssa.FieldAddr); ok {
+						if al, ok := w.origin(fa.X).(*ssa.Alloc); ok && al.Heap && al.Parent() == fn {
+							r.HoldsTrivial("C11.e", "store triggerComplete in "+fnShort(fn), w.instrPos(in), "initialises the freshly allocated, unpublished state (value decided by C09.F7)")
+							continue
+						}
+					}
+				}
 				r.Check(isC && bv, "C11.e", "store triggerComplete in "+fnShort(fn), w.instrPos(in), "stores true", "triggerComplete may be reset (a completed bar could become incomplete)")
 			}
 		}
